@@ -157,9 +157,9 @@ func run(c *core.Ctx) {
 		return
 	}
 	fmt.Sscanf(c.Shard, "aug/%d", &shard)
-	c.Res.Bound = fmt.Sprintf("augment = owner {a, submodule as, b, c} x %d targets (containers, list, choice, case, leaf, leaf-list, rpc input/output written and unwritten, notification, node from uses, node in a submodule, nodes created by other augments, missing) x %d bodies (leaf, container, colliding name, two leaves, uses, case, nested containers); all single augments, a seventh (thorough: half) of all ordered pairs, chains of three in 4 declaration orders x 64 owner assignments; every load order of the 2-4 files; scale: an augment and a chained one on a target 0..40 (70) containers deep and on a container with 1..40, 63..65, 127..129, 255..257 children, 2 load orders", len(fam.AugTargets), fam.AugBodies)
+	c.Res.Bound = fmt.Sprintf("augment = owner {a, submodule as, b, c} x %d targets (containers, list, choice, case, leaf, leaf-list, rpc input/output written and unwritten, notification, node from uses, node in a submodule, nodes created by other augments, missing) x %d bodies (leaf, container, colliding name, two leaves, uses, case, nested containers); all single augments, an eleventh (thorough: half) of all ordered pairs, chains of three in 4 declaration orders x 64 owner assignments; every load order of the 2-4 files; scale: an augment and a chained one on a target 0..40 (70) containers deep and on a container with 1..40, 63..65, 127..129, 255..257 children, 2 load orders", len(fam.AugTargets), fam.AugBodies)
 	i := 0
-	fam.AUG(c.Tier, func(augs []fam.AugSpec) {
+	one := func(augs []fam.AugSpec) {
 		i++
 		if (i-1)%nShards != shard || c.Expired() {
 			return
@@ -180,7 +180,7 @@ func run(c *core.Ctx) {
 		switch {
 		case f != nil:
 			c.Outcome("FAIL:" + f.fp)
-			c.Fail(caseNo, nil, f.fp, in, f.exp, f.obs)
+			c.Fail(caseNo, classes(augs), f.fp, in, f.exp, f.obs)
 		case wantErr:
 			c.Outcome("reported-as-required")
 		default:
@@ -190,7 +190,24 @@ func run(c *core.Ctx) {
 				c.Sample(string(b))
 			}
 		}
-	})
+	}
+	fam.AUG(c.Tier, one)
+	if shard == 0 {
+		fam.AUGKnown(func(augs []fam.AugSpec) { i = 0; one(augs) })
+	}
+}
+
+// impliedClass: the target is a shorthand choice member that holds a directory of its own name,
+// addressed through its implied case (RFC 7950 7.9.2).
+func classes(augs []fam.AugSpec) []string {
+	for _, a := range augs {
+		for _, t := range fam.AugTargetsKnown {
+			if a.Target == t {
+				return []string{"rfc-path-through-implied-case-of-a-member-holding-a-directory-of-its-name"}
+			}
+		}
+	}
+	return nil
 }
 
 func replay(tier string, raw json.RawMessage) (bool, string, string) {
